@@ -311,14 +311,14 @@ Proof.
       * eapply ext_msgs_ok; eauto. apply msgs_ok_nil. congruence.
       * intro Hr. apply triple.
         -- intros v Hv. destruct T as [T | [T1 T2]].
-           ++ left. rewrite T, F in Hv. repeat split; try congruence.
+           ++ left. rewrite T, F in Hv. repeat split; try congruence; auto.
            ++ rewrite T2 in Hv. apply in_set_add in Hv. destruct Hv as [Hv | Hv].
               ** right. right. exists m. split; [reflexivity|]. split; [exact T1|]. split; [exact Hv|].
                  split; [congruence|].
                  apply orb_false_iff in Eto. destruct Eto as [Eto _].
                  apply andb_false_iff in Eto.
                  destruct Eto as [Eto | Eto]; apply negb_false_iff in Eto; apply N.eqb_eq in Eto; [right | left]; exact Eto.
-              ** left. rewrite F in Hv. repeat split; try congruence.
+              ** left. rewrite F in Hv. repeat split; try congruence; auto.
         -- intro Ha. assert (Ha' : asc (c_votes s1)) by (rewrite F; apply Ha; congruence).
            destruct T as [T | [T1 T2]]; [rewrite T; auto | rewrite T2; apply asc_set_add; auto].
         -- intro Hl. right. destruct U as [U | [U | [U1 [c [U2 U3]]]]]; try congruence.
@@ -327,6 +327,7 @@ Proof.
       split; [destruct K as [_ [_ [K _]]]; congruence|]. split.
       * eapply keep_msgs_ok; eauto. apply msgs_ok_nil. congruence.
       * apply keep_esum. eapply keep_trans; [| exact K]. apply same_vol_keep. unfold same_vol. repeat split; auto.
+  all: try assumption; try congruence.
 Qed.
 
 (* ---------------------------------------------------------------- Tick *)
@@ -353,14 +354,14 @@ Proof.
     + intro H. apply Hcand; auto. simpl in Er. congruence.
     + intro H. inversion H. subst. apply triple; auto. apply msgs_ok_nil; auto. apply keep_esum; auto.
   - intro H. pose proof (kx_tick_leader s0) as K. rewrite H in K. simpl in K.
-    assert (K' : keep s s') by (eapply keep_trans; eauto).
+    assert (K' : keep s s') by (exact (keep_trans _ _ _ K0 K)).
     split; [destruct K' as [_ [_ [K' _]]]; auto|]. split; [eapply keep_msgs_ok; eauto using msgs_ok_nil | apply keep_esum; auto].
 Qed.
 
 (* ---------------------------------------------------------------- all events *)
 Definition ev_msg (ev : event) : option msg := match ev with EDeliver m => Some m | _ => None end.
 
-Lemma keep2_sum s st s' om :
+Lemma keep2_sum s (st : N) s' om :
   n_msgs s = [] -> keep s s' -> n_id s' = n_id s /\ msgs_ok s' /\ esum s s' om.
 Proof.
   intros Hm K. split; [destruct K as [_ [_ [K _]]]; auto|].
